@@ -1,6 +1,7 @@
 """C07 Dense output is accurate to the interpolant's order inside every step."""
 import facts
 import aff
+import radau
 
 LEVEL = "proof"
 
@@ -18,6 +19,8 @@ def run(rep, tier):
         if df is None:
             continue
         aff.r_dense(rep, ctx, m, t, df)
+    rep.rule("R-AFF-COLLOC", "Radau's interpolant, reconstructed from RADAU::interpolate and the stored blocks, passes through y_old and y_old + Z_i at theta = 0, c1, c2, 1: it is the collocation polynomial")
+    radau.r_radau_dense(rep, f)
     rep.explanation = ("Proof-level for RK4, RK23, DOPRI5, DOP853: the polynomial the interpolant evaluates is reconstructed from X::interpolate and the "
                        "coefficient blocks X::solve stores, and the continuous order conditions are discharged coefficient-wise in theta for all trees "
                        "up to the advertised dense order q (3, 3, 4, 7). Not decided: error constants; BDF/Radau numerical accuracy after step changes.")
